@@ -202,8 +202,11 @@ func (x *instance) internals(rp *replayer, e *obs, where string) {
 }
 
 // laws checks the settle law on the real outputs wherever the specification says it applies
-func (x *instance) laws(r callResult, e *obs) string {
+func (x *instance) laws(o apiOp, r callResult, e *obs) string {
 	bad := ""
+	if o.Op == "rec" { // always refused (compared as such); the settled outputs must stay
+		r.se, r.fe = "", ""
+	}
 	if e.Sset {
 		if so := x.std.ReadOutputs(); !equalsInts(so, e.Want) || r.se != "" {
 			bad += fmt.Sprintf("after %d sweeps since LoadSensors Network outputs are %s (error %q), the topological value is %v; ", e.Sn, fstrs(so), r.se, e.Want)
@@ -226,7 +229,7 @@ func (rp *replayer) runSeq(x *instance, s *seqCase, where string, g *group) stri
 			break
 		}
 		e := &s.Log[k]
-		if bad := x.laws(r, e); bad != "" {
+		if bad := x.laws(o, r, e); bad != "" {
 			return fmt.Sprintf("%s [%s] call %d: %s", where, opsString(s.Ops[:k+1]), k+1, bad)
 		}
 		if bad := x.api(r, e); bad != "" {
@@ -364,7 +367,7 @@ func (rp *replayer) runPair(a, t *instance, s *seqCase, vname string, g *group) 
 			continue
 		}
 		e := &s.Log[k]
-		if bad := a.laws(ra, e); bad != "" {
+		if bad := a.laws(o, ra, e); bad != "" {
 			return fmt.Sprintf("[%s] call %d: %s", opsString(s.Ops[:k+1]), k+1, bad)
 		}
 		if bad := a.api(ra, e); bad != "" {
